@@ -5,6 +5,8 @@ package tlcp
 // C06: the protected stream is delivered exactly, in order, within record size limits.
 
 import (
+	"time"
+	"sync/atomic"
 	"bytes"
 	"encoding/json"
 	"errors"
@@ -35,6 +37,10 @@ type c06Case struct {
 	// Reply > 0 (with Close == 2): after CloseWrite the sender keeps reading; the receiver, having seen
 	// the end of the stream, answers with Reply bytes and closes: the sender must read exactly those
 	Reply int `json:"reply,omitempty"`
+	// EarlyAt k > 0: the first write is issued by a second goroutine at the moment the sender's k-th
+	// transport write of the handshake begins (that transport write is held for 3 ms); the remaining
+	// writes follow when it has returned. The bytes must still arrive, in order.
+	EarlyAt int `json:"earlyat,omitempty"`
 }
 
 // refKeysOfPair derives the record keys of a completed conversation from the tapped hellos and
@@ -103,10 +109,28 @@ func c06Run(c c06Case) (sig, msg string) {
 	var recvErr, sendErr error
 	sawEOF := false
 	sendDone := make(chan struct{})
+	var hsReturned int32
+	earlyDone := make(chan struct{})
+	earlyStarted := false
+	var earlyN int
+	var earlyErr error
 	send := func(cn *Conn) error {
 		defer close(sendDone)
+		atomic.StoreInt32(&hsReturned, 1)
 		off := 0
 		for i, n := range c.Writes {
+			if i == 0 && c.EarlyAt > 0 {
+				// the first write belongs to the early writer (if it was started)
+				if earlyStarted {
+					<-earlyDone
+					if earlyErr != nil || earlyN != n {
+						sendErr = fmt.Errorf("write 0 of %d bytes, issued while the handshake was finishing, returned (%d, %v)", n, earlyN, earlyErr)
+						return sendErr
+					}
+					off += n
+					continue
+				}
+			}
 			m, err := cn.Write(all[off : off+n])
 			if err != nil || m != n {
 				sendErr = fmt.Errorf("write %d of %d bytes returned (%d, %v)", i, n, m, err)
@@ -195,8 +219,31 @@ func c06Run(c c06Case) (sig, msg string) {
 	}
 	opt := vfPairOpt{}
 	recvEnd := 1 - c.Dir
-	if c.EOFData && c.Close == 1 {
-		opt.Prepare = func(sim *vfStream, _, _ *Conn) { sim.ends[recvEnd].eofWithData = true }
+	eofData := c.EOFData && c.Close == 1
+	if eofData || c.EarlyAt > 0 {
+		opt.Prepare = func(sim *vfStream, cli, srv *Conn) {
+			if eofData {
+				sim.ends[recvEnd].eofWithData = true
+			}
+			if c.EarlyAt > 0 && len(c.Writes) > 0 {
+				sender := cli
+				if c.Dir == 1 {
+					sender = srv
+				}
+				first := all[:c.Writes[0]]
+				sim.ends[c.Dir].onWrite = func(k int) {
+					if k+1 != c.EarlyAt || atomic.LoadInt32(&hsReturned) != 0 || earlyStarted {
+						return
+					}
+					earlyStarted = true
+					go func() {
+						defer close(earlyDone)
+						earlyN, earlyErr = sender.Write(first)
+					}()
+					time.Sleep(3 * time.Millisecond)
+				}
+			}
+		}
 	}
 	k := 0
 	switch c.Seg {
@@ -278,7 +325,7 @@ func c06Run(c c06Case) (sig, msg string) {
 }
 
 func TestVF_C06(t *testing.T) {
-	rec := vfRec("C06", "C06-stream", "suite x full / resumed handshake x dynamic sizing on/off x direction x write-size lists (0,1,2,small,16383..16385,40000,70000; ramps of many small writes followed by a long one; 990..1100 writes of 1..40 bytes followed by long ones; runs of 1..60 empty writes between data) x receiver transport segmentation (whole, 1 byte, cycling 1..50, 1208) x read buffer sizes (1,7,100,4096,20000 cycled) x close mode (none, Close, CloseWrite; with Close optionally a late reader and a transport that reports io.EOF together with its last bytes; with CloseWrite optionally an answer of 1..70000 bytes which the half-closed side must read to its end); oracle: writes report full length, concat(reads)=concat(writes), EOF after everything when closed, record sizes from the wire via the reference opener; non-trivial = more than one record, or segmentation != whole, or a read buffer smaller than a record")
+	rec := vfRec("C06", "C06-stream", "suite x full / resumed handshake x dynamic sizing on/off x direction x write-size lists (0,1,2,small,16383..16385,40000,70000; ramps of many small writes followed by a long one; 990..1100 writes of 1..40 bytes followed by long ones; runs of 1..60 empty writes between data) x receiver transport segmentation (whole, 1 byte, cycling 1..50, 1208) x read buffer sizes (1,7,100,4096,20000 cycled) x close mode (none, Close, CloseWrite; with Close optionally a late reader and a transport that reports io.EOF together with its last bytes; optionally the first write issued by a second goroutine while the sender's handshake is in its first or second transport write; with CloseWrite optionally an answer of 1..70000 bytes which the half-closed side must read to its end); oracle: writes report full length, concat(reads)=concat(writes), EOF after everything when closed, record sizes from the wire via the reference opener; non-trivial = more than one record, or segmentation != whole, or a read buffer smaller than a record")
 	sizeGen := rapid.OneOf(rapid.SampledFrom([]int{0, 1, 2, 16383, 16384, 16385, 40000, 70000}), rapid.IntRange(1, 300), rapid.IntRange(1, 20000))
 	vfRapid(t, rec, "cases", vfN(2000, 30000), func(t *rapid.T) {
 		c := c06Case{Suite: rapid.SampledFrom(vfSuites).Draw(t, "suite"), NoDynamic: rapid.Bool().Draw(t, "nodyn"), Dir: rapid.IntRange(0, 1).Draw(t, "dir"),
@@ -315,6 +362,9 @@ func TestVF_C06(t *testing.T) {
 			c.Pre, c.PreSize = rapid.SampledFrom([]int{990, 1000, 1001, 1002, 1010, 1100}).Draw(t, "pre"), rapid.IntRange(1, 40).Draw(t, "presize")
 			c.Writes = []int{rapid.SampledFrom([]int{16384, 16385, 20000, 50000}).Draw(t, "big"), rapid.IntRange(1, 20000).Draw(t, "next")}
 			c.Seg, c.Bufs = 0, []int{20000}
+		}
+		if rapid.IntRange(0, 5).Draw(t, "early") == 0 && c.Writes[0] > 0 && !c.Resumed {
+			c.EarlyAt = rapid.IntRange(1, 2).Draw(t, "earlyat")
 		}
 		if c.Close == 2 && rapid.Bool().Draw(t, "reply") {
 			c.Reply = rapid.SampledFrom([]int{1, 100, 16385, 70000}).Draw(t, "replysize")
